@@ -135,6 +135,7 @@ type GenParams struct {
 	BigBatch                                                                                      bool
 	RecreatePct                                                                                   int // after a drop of an existing index: percentage of cases in which the same name is created again at once and written to
 	SnapEmptyPct                                                                                  int // after a successful create: percentage of cases in which a snapshot (or a log compaction) is taken while the index is still empty
+	NullMeta                                                                                      bool // metadata may carry a key whose value is JSON null (a key the record keeps, with no value)
 }
 
 // shadow state kept by the generator only to bias towards valid / interesting ops
@@ -223,6 +224,10 @@ func genMeta(t *rapid.T, p GenParams, cfg *IdxCfg) map[string]any {
 		if rapid.IntRange(0, 2).Draw(t, "mcreated") == 0 {
 			m["_created_at"] = float64(1700000000 + rapid.IntRange(0, 1000).Draw(t, "created"))
 		}
+	}
+	if p.NullMeta && rapid.IntRange(0, 5).Draw(t, "mnull") == 0 {
+		// a null-valued key: new ("z"), or in place of a value of another type
+		m[rapid.SampledFrom([]string{"z", "z", "s", "n", "b"}).Draw(t, "nullkey")] = nil
 	}
 	if len(m) == 0 {
 		return nil
@@ -418,6 +423,12 @@ func GenHistory(p GenParams) *rapid.Generator[[]Op] {
 					} else {
 						op.ID = pickID(t, si, "fresh")
 					}
+					if len(si.live) == 0 && len(si.dead) == 0 && rapid.IntRange(0, 3).Draw(t, "first-dim") == 0 {
+						// the first vector of an index that never held one decides the dimension, whatever was
+						// attempted (and refused) before
+						cfg.Dim++
+						si.cfg.Dim = cfg.Dim
+					}
 					op.Vec = genVec(t, cfg.Dim)
 				}
 				op.Meta = genMeta(t, p, &cfg)
@@ -433,6 +444,7 @@ func GenHistory(p GenParams) *rapid.Generator[[]Op] {
 					break
 				}
 				cfg := si.cfg
+				neverPopulated := len(si.live) == 0 && len(si.dead) == 0
 				nb := rapid.IntRange(1, 6).Draw(t, "nbatch")
 				if p.BigBatch && rapid.IntRange(0, 2).Draw(t, "big") == 0 {
 					nb = rapid.IntRange(8, 14).Draw(t, "nbig")
@@ -461,7 +473,23 @@ func GenHistory(p GenParams) *rapid.Generator[[]Op] {
 						it.Vec = genVec(t, cfg.Dim+1)
 						ok = false
 					}
+					if invalid && neverPopulated && rapid.IntRange(0, 3).Draw(t, "odd-dim-item") == 0 {
+						// an index that never held a vector has no dimension yet: the batch is judged against its own
+						// first vector, so an odd one anywhere (the first included) makes the batch inconsistent
+						it.Vec = genVec(t, cfg.Dim+1)
+					}
 					op.Items = append(op.Items, it)
+				}
+				if neverPopulated && len(op.Items) > 0 {
+					d0 := len(op.Items[0].Vec)
+					for _, it := range op.Items {
+						if len(it.Vec) != d0 {
+							ok = false
+						}
+					}
+					if ok {
+						si.cfg.Dim = d0 // a consistent first batch establishes the dimension
+					}
 				}
 				if len(op.Items) == 0 {
 					op.Items = []Item{{ID: pickID(t, si, "fresh"), Vec: genVec(t, cfg.Dim)}}
